@@ -450,6 +450,58 @@ func (c *boundsCtx) strConstFact(g *dgraph, v ssa.Value, s string, op token.Toke
 	}
 }
 
+// soleStoreBeforeEscape: the one value ever stored into the local al, provided every other use of al
+// (anything but loads and that store) cannot execute before the load ld.
+func soleStoreBeforeEscape(al *ssa.Alloc, ld *ssa.UnOp) ssa.Value {
+	var sv ssa.Value
+	n := 0
+	var escapes []ssa.Instruction
+	for _, ref := range *al.Referrers() {
+		switch x := ref.(type) {
+		case *ssa.Store:
+			if x.Addr == ssa.Value(al) {
+				n++
+				sv = x.Val
+				continue
+			}
+			escapes = append(escapes, x)
+		case *ssa.UnOp:
+			if x.Op == token.MUL {
+				continue
+			}
+			escapes = append(escapes, x)
+		case *ssa.DebugRef:
+		case *ssa.IndexAddr, *ssa.FieldAddr:
+			// element / field addresses of a slice or struct local are ordinary accesses
+			continue
+		default:
+			escapes = append(escapes, ref)
+		}
+	}
+	if n != 1 || sv == nil {
+		return nil
+	}
+	for _, e := range escapes {
+		if e.Block() == ld.Block() {
+			// same block: the escape must come after the load
+			for _, in := range e.Block().Instrs {
+				if in == ssa.Instruction(ld) {
+					break
+				}
+				if in == e {
+					return nil
+				}
+			}
+			// a loop back to this block would still reach the load
+		}
+		// (a path that executes the allocation again reaches a fresh variable)
+		if w := findPath(pointOf(e), func(in ssa.Instruction) bool { return in == ssa.Instruction(ld) }, func(in ssa.Instruction) bool { return in == ssa.Instruction(al) }, nil); w != nil {
+			return nil
+		}
+	}
+	return sv
+}
+
 // ---- definitional knowledge ----
 
 // defFacts adds what the definition of v says, recursively over the values a term mentions.
@@ -471,6 +523,19 @@ func (c *boundsCtx) defFacts(g *dgraph, v ssa.Value, seen map[ssa.Value]bool, de
 			g.addLE(ln, lt)
 			g.addLE(lt, ln)
 			c.defFacts(g, ms.Len, seen, depth+1)
+		}
+		// a load of a local that is stored exactly once (`s := make(…)` whose address is taken later):
+		// the loaded slice is the stored one, as long as nothing that lets the address escape can run
+		// before the load
+		if ld, ok := v.(*ssa.UnOp); ok && ld.Op == token.MUL {
+			if al, ok := ld.X.(*ssa.Alloc); ok {
+				if sv := soleStoreBeforeEscape(al, ld); sv != nil {
+					sl := term{"len(" + c.key(sv) + ")", 0}
+					g.addLE(ln, sl)
+					g.addLE(sl, ln)
+					c.defFacts(g, sv, seen, depth+1)
+				}
+			}
 		}
 		if cl, ok := v.(*ssa.Call); ok {
 			rf := refOf(cl.Common())
